@@ -14,6 +14,7 @@ NegV(k) == [k |-> "num", n |-> "-" \o ToString(100 + k)]
 FltV(k) == [k |-> "flt", n |-> ToString(100 + k) \o ".5"]
 BoolV(k) == [k |-> "bool", v |-> (k % 2 = 0)]
 ArrV(k) == [k |-> "arr", items |-> <<NumV(k), NumV(k + 1)>>]
+ArrN(k) == [k |-> "arrn", items |-> <<NumV(k), NumV(k + 1)>>]     \* the executor puts a None between the two items
 Kinds == {"select", "insert", "upsert", "update", "delete"}
 \* further value-bearing term classes the executor builds by name from a list of fresh constants: <<class, arity, criterion?>>
 CONSTANT VExt
@@ -28,6 +29,11 @@ Pool(kind, nv) ==
          <<[m |-> "select", terms |-> <<[k |-> "call", f |-> "COALESCE", args |-> <<Fld("T1", "b"), StrV(nv)>>]>>], 1>>,
          <<[m |-> "select", terms |-> <<ArrV(nv)>>], 2>>,
          <<[m |-> "select", terms |-> <<WithAl(ArrV(nv), "alz")>>], 2>>,
+         <<[m |-> "select", terms |-> <<ArrN(nv)>>], 2>>,
+         <<[m |-> "where", crit |-> Cmp(Fld("T1", "c"), ArrN(nv))], 2>>,
+         \* ORDER BY / GROUP BY the aliased term that the select list (maybe) defines: the alias is written, the term's constants are not
+         <<[m |-> "orderby", terms |-> <<WithAl([k |-> "bin", op |-> "+", l |-> Fld("T1", "b"), r |-> NumV(nv)], "ala")>>, dir |-> "DESC"], 1>>,
+         <<[m |-> "groupby", terms |-> <<WithAl([k |-> "bin", op |-> "+", l |-> Fld("T1", "b"), r |-> NumV(nv)], "ala")>>], 1>>,
          <<[m |-> "select", terms |-> <<WithAl(StrV(nv), "aly"), WithAl(NegV(nv + 1), "alx")>>], 2>>,
          <<[m |-> "select", terms |-> <<[k |-> "call", f |-> "SUM", args |-> <<[k |-> "bin", op |-> "*", l |-> Fld("T1", "b"), r |-> FltV(nv)]>>]>>], 1>>,
          <<[m |-> "groupby", terms |-> <<WithAl([k |-> "bin", op |-> "+", l |-> Fld("T1", "b"), r |-> NumV(nv)], "alg")>>], 1>>,
